@@ -17,6 +17,9 @@ def is_erased_call(path):
     return any(path == e or path.startswith(e) for e in ERASE)
 
 
+# arithmetic helpers without effects (a counter update is made of these)
+PURE_NUM = {'saturating_add', 'saturating_sub', 'wrapping_add', 'wrapping_sub', 'checked_add', 'min', 'max', 'unwrap_or', 'saturating_mul', 'from', 'into', 'try_from'}
+
 # generic callees whose type arguments carry meaning (shown in terms)
 SHOW_GARGS = {'std::str::parse'}
 
@@ -166,7 +169,31 @@ class Evaluator(object):
         self._frozen = 0
 
     # ------------------------------------------------------------------ events
+    def _obs_place(self, l):
+        """the assigned place goes through a field that only observes the run (see Ctx.obs_fields)"""
+        obs = getattr(self, 'obs', None)
+        if not obs or not isinstance(l, dict):
+            return False
+        import canon
+        x = H.peel(l)
+        while isinstance(x, dict) and x.get('k') == 'Field':
+            if (norm_path(canon.strip_ty(x['e'].get('ty') or '')), x['name']) in obs:
+                return True
+            x = H.peel(x['e'])
+        return False
+
+    def _reads_obs(self, node):
+        obs = getattr(self, 'obs', None)
+        if not obs:
+            return False
+        import canon
+        return any(n.get('k') == 'Field' and (norm_path(canon.strip_ty(n['e'].get('ty') or '')), n['name']) in obs for n in H.walk(node))
+
     def emit(self, kind, term, node, guards, fn, chain, **kw):
+        if kind in ('assign', 'assignop') and isinstance(node, dict) and self._obs_place(node.get('l')):
+            return Event(idx=-1, kind='obs', term=term, node=node, guards=tuple(guards), fn=fn, chain=tuple(chain), sp=(node or {}).get('sp'), **kw)
+        if kind == 'call' and isinstance(node, dict) and kw.get('callee', '').split('::')[-1] in PURE_NUM and self._reads_obs(node):
+            return Event(idx=-1, kind='obs', term=term, node=node, guards=tuple(guards), fn=fn, chain=tuple(chain), sp=(node or {}).get('sp'), **kw)
         ev = Event(idx=len(self.events), kind=kind, term=term, node=node, guards=tuple(guards), fn=fn,
                    chain=tuple(chain), sp=(node or {}).get('sp'), **kw)
         self.events.append(ev)
